@@ -218,6 +218,8 @@ pub fn related_values(m: &Map) -> Vec<u64> {
         m.canvas.0 as u64,
         m.canvas.1 as u64,
     ];
+    // every chunk type code: an enum field flipped to another *valid* code is the subtle case
+    v.extend_from_slice(&[0x0004, 0x0011, 0x2004, 0x2005, 0x2006, 0x2007, 0x2008, 0x2016, 0x2017, 0x2018, 0x2019, 0x2020, 0x2022, 0x2023]);
     for t in &m.tilesets {
         v.push(t.count as u64);
         v.push(t.count as u64 + 1);
